@@ -49,7 +49,7 @@ def check_filter_table(ctx):
     new = T_ + "'"
     for c, base in (('MODEL_NAME', sym('tname', T_)), ('P1', sym('p1', T_))):
         ref = mk_fn('at', B(new, mk_fn('compress', L(new), B(T_, base), B(T_, member))), P(rank))
-        compare(ctx, 'PERM-9', 'filter_table column %s' % c, where_, out.cols.get(c), ref, (R_,), vocab={'tname', 'p1', 'mname', 'chi2', 'av', 'sc', 'model_id'}, fns={'isin', 'compress'}, findings=I.findings,
+        compare(ctx, 'PERM-9', 'filter_table column %s' % c, where_, out.cols.get(c), ref, (R_,), vocab={'tname', 'p1', 'mname', 'chi2', 'av', 'sc', 'model_id'}, fns={'isin', 'compress', 'nonzero', 'invperm'}, findings=I.findings,
                 detail_ok='col[isin(table names, fit names)][argsort(argsort(fit names))]')
     from ..fitmodel import guard_requires
     got_names = out.cols.get('MODEL_NAME')
@@ -74,6 +74,13 @@ def check_filter_table(ctx):
 
         def sl_contains(self, interp, key):
             return True
+
+        def sl_method(self, interp, name, args, kw, node):
+            if name == 'values' and not args:
+                return symarr('lookup_values', ('k',), unit=num(1))          # the entries in the order the dictionary happens to hold them: not an order of the rows
+            if name == 'keys' and not args:
+                return symarr('lookup_keys', ('k',))
+            return NotImplemented
     I2 = Interp(repo)
     T2 = SymTable({'MODEL_NAME': symarr('tname', (T_,)), 'P1': symarr('p1', (T_,))}, T_)
     info2 = Obj(repo.cls('fit_info', 'FitInfo'), dict(info.attrs))
@@ -91,6 +98,10 @@ def check_filter_table(ctx):
             if syms_ <= {'tname', 'mname', 'p1', 'chi2', 'av', 'sc', 'model_id'} | {x for x in syms_ if x.startswith('idx:')} and fns_ <= {'lookup', 'strip', 'at', 'argsort', 'invperm', 'nonzero', 'isin', 'len'}:
                 ctx.violation('PERM-9', inst, where_, 'additional parameters are not looked up by the row\'s model name: row r receives %s' % alg.show(col.poly, 160), 'additional-by-name')
                 decided = True
+    clash = [f for f in I2.findings if f.kind == 'label-clash']
+    if not decided and clash:
+        ctx.violation('PERM-9', inst, '%s:%d %s' % (clash[0].module, clash[0].line, where_.split(' ', 1)[-1]), 'additional parameters are not looked up by the row\'s model name: %s' % clash[0].msg, 'additional-by-name')
+        decided = True
     if not decided:
         sctx = SuspectCtx(ctx, 'the attached column was not decided by interpretation (%r) and the syntactic rule, which knows one spelling only, reports' % (col if col is not None else out2,))
         ok = False
@@ -514,6 +525,10 @@ MUST_FIRE = [
                                           "            for info in self._fits[1:]:\n                if info.meta != self._fits[0].meta:\n                    raise ValueError(\"The meta property of all FitInfo instances should match\")\n\n            self._fits = fits\n")]),
 ]
 MUST_SILENT = [
+    ('rank by scattering arange through the sorting permutation', [(FI, "index = np.argsort(np.argsort(self.model_name))", "by_name = np.argsort(self.model_name)\n        index = np.empty(len(by_name), dtype=np.intp)\n        index[by_name] = np.arange(len(by_name), dtype=np.intp)")]),
+    ('rows picked by position instead of by mask', [(FI, "table_subset = input_table[subset]", "table_subset = input_table[np.flatnonzero(subset)]")]),
+    ('additional column built by a comprehension', [(FI, "            table_sorted[par] = np.zeros(len(table_sorted), dtype=float)\n            for i, name in enumerate(table_sorted['MODEL_NAME']):\n                table_sorted[par][i] = additional[par][name.strip()]\n", "            table_sorted[par] = np.array([additional[par][name.strip()] for name in table_sorted['MODEL_NAME']], dtype=float)\n")]),
+    ('one row written through join', [(EP, 'fout.write(basic + pars + "\\n")', 'fout.write("".join([basic, pars, "\\n"]))')]),
     ('rank via a temporary', [(FI, "index = np.argsort(np.argsort(self.model_name))", "first = np.argsort(self.model_name)\n        index = np.argsort(first)")]),
     ('subset inlined', [(FI, "        table_subset = input_table[subset]\n        index = np.argsort(np.argsort(self.model_name))\n        table_sorted = table_subset[index]", "        index = np.argsort(np.argsort(self.model_name))\n        table_sorted = input_table[subset][index]")]),
 ]
